@@ -841,6 +841,66 @@ def image (trans source : Int) (rn : List (Key × Key)) (qvars : List Key) (fora
   | .error e => (.error e, m)
   | .ok qn => tryToReorder (imageBody trans source (renameByName m.tbl rn) qn forall_) m
 
+/-- `_copy_bdd(u, level_map, bdd, bdd, cache)` as `_preimage_of` calls it: inside one manager,
+with a level map whose VALUES are whatever the renaming dictionary holds — an `int` (`.lvl`, a
+level or not) or an undeclared name (`.name`: `find_or_add` ends in a TypeError after its
+reordering request).  With `int` values that are natural numbers this is `copyBddF none`. -/
+def copyBddK (levelMap : List (Nat × Key)) :
+    Nat → Int → HashMap Nat Int → M (Int × HashMap Nat Int)
+  | 0, _, _ => fun m => (.error .fuel, m)
+  | fu+1, u, cache => fun m =>
+    if u.natAbs = 1 then (.ok (u, cache), m) else
+    match cache[u.natAbs]? with
+    | some r =>
+      if ¬ 0 < r then (.error .assertion, m) else
+      (.ok ((if u < 0 then -r else r), cache), m)
+    | none =>
+      match m.tbl.succ[u.natAbs]? with
+      | none => (.error .key, m)
+      | some n =>
+        if n.lo = 0 ∨ n.hi = 0 then (.error .assertion, m) else
+        match copyBddK levelMap fu n.lo cache m with
+        | (.error e, m1) => (.error e, m1)
+        | (.ok (p, cache), m1) =>
+          match copyBddK levelMap fu n.hi cache m1 with
+          | (.error e, m2) => (.error e, m2)
+          | (.ok (q, cache), m2) =>
+            if ¬ 0 < p * n.lo then (.error .assertion, m2) else
+            if ¬ 0 < q then (.error .assertion, m2) else
+            match levelMap.lookup n.lvl with
+            | none => (.error .key, m2)
+            | some jnew =>
+              match (match jnew with
+                  | .lvl i => findOrAdd i (-1) 1 m2
+                  | .name _ => findOrAddNonInt m2) with
+              | (.error e, m3) => (.error e, m3)
+              | (.ok g, m3) =>
+                match ite g q p m3 with
+                | (.error e, m4) => (.error e, m4)
+                | (.ok r, m4) =>
+                  if ¬ 0 < r then (.error .assertion, m4) else
+                  (.ok ((if u < 0 then -r else r), cache.insert u.natAbs r), m4)
+
+/-- `all(abs(i - j) == 1 for i, j in rename.items() if isinstance(i, int) and isinstance(j, int))` -/
+def renameNeighbors (rn : List (Key × Key)) : Bool :=
+  (intPairs rn).all fun p => (p.1 - p.2).natAbs == 1
+
+/-- `{j: rename.get(j, j) for j in range(len(bdd.vars))}` -/
+def preimageLevelMap (n : Nat) (rn : List (Key × Key)) : List (Nat × Key) :=
+  (List.range n).map fun j => (j, (rn.lookup (Key.lvl (j : Int))).getD (Key.lvl (j : Int)))
+
+/-- the branch of `_preimage_of` for partners that are not neighbours (reordering can separate
+them): rename the target (`_copy_bdd` with the full level map), conjoin (`bdd.ite(trans, r, -1)`),
+quantify (`bdd.quantify`, with `qvars` as levels) — all nested in the decorator's context -/
+def preimageFallback (trans target : Int) (rn : List (Key × Key)) (q : List Nat) (forall_ : Bool) :
+    M Int := fun m1 =>
+  match copyBddK (preimageLevelMap m1.nvars rn) (m1.nvars + 2) target {} m1 with
+  | (.error e, m2) => (.error e, m2)
+  | (.ok (r, _), m2) =>
+    match ite trans r (-1) m2 with
+    | (.error e, m3) => (.error e, m3)
+    | (.ok r2, m3) => quantify r2 (q.map fun (i : Nat) => Key.lvl (i : Int)) forall_ m3
+
 /-- `_preimage_of(bdd, trans, target, rename, qvars, forall)`: the decorated body -/
 def preimageBody (trans target : Int) (rn : List (Key × Key)) (qvars : List Key) (forall_ : Bool) : M Int :=
   fun m =>
@@ -851,13 +911,15 @@ def preimageBody (trans target : Int) (rn : List (Key × Key)) (qvars : List Key
     match assertValidRename rn m with
     | (.error e, m1) => (.error e, m1)
     | (.ok _, m1) =>
-      match imageF none (some (intPairs rn)) [] (badKeys rn) q forall_ (2 * m.nvars + 4)
-          trans target {} m1 with
-      -- every call of `_image` either moves down in `u` or in `v`, or calls itself with the same
-      -- pair (a renaming that sends a level below the bottom, or moves the terminal's level):
-      -- the fuel `2n + 4` runs out exactly when Python ends in RecursionError (a RuntimeError)
-      | (.error e, m2) => (.error (if e = .fuel then .runtime else e), m2)
-      | (.ok (r, _), m2) => (.ok r, m2)
+      if renameNeighbors rn then
+        match imageF none (some (intPairs rn)) [] (badKeys rn) q forall_ (2 * m.nvars + 4)
+            trans target {} m1 with
+        -- every call of `_image` either moves down in `u` or in `v`, or calls itself with the same
+        -- pair (a renaming that sends a level below the bottom, or moves the terminal's level):
+        -- the fuel `2n + 4` runs out exactly when Python ends in RecursionError (a RuntimeError)
+        | (.error e, m2) => (.error (if e = .fuel then .runtime else e), m2)
+        | (.ok (r, _), m2) => (.ok r, m2)
+      else preimageFallback trans target rn q forall_ m1
 
 /-- module-level `preimage(trans, target, rename, qvars, bdd, forall)` -/
 def preimage (trans target : Int) (rn : List (Key × Key)) (qvars : List Key) (forall_ : Bool) : M Int :=
